@@ -11,6 +11,9 @@ CHECKS = {
  "C16": dict(level="model_checking", sec="3/C16", technique="stateright explicit-state BFS over all set_memory/set32 histories on the real backing::Memory against a byte/permission-map reference model",
    text="Every history of region writes (8 start addresses x lengths 0..5 x 3 permissions) and in-region set32 to depth 3 (reduced alphabet: depth 4 in thorough), both endiannesses; all reads of widths 8..64 at every window address compared in every state. Longer histories / wider windows are not covered.",
    note="Trusted: BTreeMap<addr,(byte,perm)> reference. set32 on unmapped addresses is not exercised (panics by design)."),
+ "C08": dict(level="model_checking", sec="3/C08", technique="stateright explicit-state BFS over all store/fork/set_permissions histories on the real paged::Memory (two slots) against a byte-map reference model",
+   text="Every history of stores (8/16/32/64 bit at every address around the 0x400 page boundary, two slots), clone and set_permissions to depth 2 (tiny alphabet 3) in quick, depth 3 (reduced alphabet 4) in thorough, for endian x backing x {Constant, Expression}; every load width 8..128 at every window address, reflexive equality, equality=>same contents and permissions compared in every state. Longer histories and other page boundaries are not covered.",
+   note="Trusted: BTreeMap byte reference; Expression loads are evaluated with executor::eval (checked by C04). Permissions of addresses sharing a page with a set range but outside it are unspecified and not compared."),
 }
 NA = []
 def main():
